@@ -63,8 +63,9 @@ fn unit_case(rng: &mut Rng, rep: &mut Report) {
         && (-a).to_rads().to_bits() == (-x).to_bits()
         && (a * k).to_rads().to_bits() == (x * k).to_bits()
         && (k == 0.0 || (a / k).to_rads().to_bits() == (x / k).to_bits())
-        && a.min(b).to_rads().to_bits() == x.min(y).to_bits()
-        && a.max(b).to_rads().to_bits() == x.max(y).to_bits()
+        // (the sign of min/max of zeros of mixed sign is unspecified)
+        && (a.min(b).to_rads().to_bits() == x.min(y).to_bits() || (x == 0.0 && y == 0.0 && a.min(b).to_rads() == 0.0))
+        && (a.max(b).to_rads().to_bits() == x.max(y).to_bits() || (x == 0.0 && y == 0.0 && a.max(b).to_rads() == 0.0))
         && (y == 0.0 || (a % b).to_rads().to_bits() == (x % y).to_bits());
     if !ok {
         rep.violation("angle.operators", format!("an operator on Angle does not act on the underlying magnitude: a={x} b={y} k={k}"), cj().set("other", f32s(y)));
@@ -82,7 +83,10 @@ fn unit_case(rng: &mut Rng, rep: &mut Report) {
     match r {
         Err(m) => rep.violation("angle.trig_panicked", format!("sin/cos panicked: {m}"), cj()),
         Ok((s, c, (s2, c2), t)) => {
-            if s.to_bits() != s2.to_bits() || c.to_bits() != c2.to_bits() {
+            // "agrees": a fused sincos may differ from the separate calls
+            // in the last bit or two
+            let ulps = |p: f32, q: f32| (p as f64 - q as f64).abs() <= 2.0 * EPS * (p.abs().max(q.abs()) as f64).max(1e-30);
+            if !(ulps(s, s2) && ulps(c, c2)) {
                 rep.violation("angle.sin_cos_inconsistent", format!("sin_cos = ({s2},{c2}) but sin = {s}, cos = {c}"), cj());
                 return;
             }
@@ -105,30 +109,41 @@ fn unit_case(rng: &mut Rng, rep: &mut Report) {
 
 fn wrap_case(rng: &mut Rng, rep: &mut Report) {
     let x = angle_value(rng);
-    let min = match rng.below(4) {
+    let min = match rng.below(6) {
         0 => 0.0,
         1 => -std::f32::consts::PI,
+        2 => rng.sign() * rng.log_f32(50.0, 1e4),
+        // ends as users write them
+        3 => degs(rng.pick(&[-180.0f32, 0.0, -90.0, 90.0, -360.0])).to_rads(),
         _ => rng.f32_in(-50.0, 50.0),
     };
-    let width = match rng.below(5) {
+    let width = match rng.below(6) {
         0 => std::f32::consts::TAU,
         1 => std::f32::consts::PI,
         2 => rng.log_f32(1e-3, 1.0),
+        3 => turns(rng.pick(&[1.0f32, 0.5, 0.25, 2.0])).to_rads(),
         _ => rng.f32_in(0.01, 100.0),
     };
     let max = min + width;
     if !(max > min) {
+        rep.skip("wrap.interval_empty_after_rounding");
         return;
     }
     // angles exactly at the ends of the interval and whole interval lengths
     // away from them (bit-exact in f32): the upper end is *excluded*
-    let x = match rng.below(12) {
+    let x = match rng.below(16) {
         0 => max,
         1 => min,
         2 => max + (max - min),
         3 => min - (max - min),
         4 => crate::next_down(max),
         5 => crate::next_up(max),
+        6 => crate::next_down(min),
+        7 => crate::next_up(min),
+        // many whole interval lengths away from either end
+        8 => min - rng.int(2, 10_000) as f32 * (max - min),
+        9 => min + rng.int(2, 10_000) as f32 * (max - min),
+        10 => max - rng.int(2, 10_000) as f32 * (max - min),
         _ => x,
     };
     let mut hs = Hasher::new();
@@ -144,17 +159,29 @@ fn wrap_case(rng: &mut Rng, rep: &mut Report) {
     };
     rep.count("wraps");
     // "closed at the upper end only by rounding": returning max itself is
-    // legitimate only if the exactly computed wrapped value is within
-    // rounding of max, not when it is (near) min
+    // legitimate only if a wrapped value within rounding of max exists —
+    // either in exact arithmetic on the inputs, or on the two f32
+    // intermediates every implementation forms first (x − min and max − min,
+    // each rounded once; their remainder is exact). Far from x, the rounding
+    // of x − min can move the remainder across a multiple of the length, and
+    // then max is what rounding produced; with x = max itself nothing rounds.
     let len64 = max as f64 - min as f64;
     let exact = min as f64 + (x as f64 - min as f64).rem_euclid(len64);
-    if w == max && exact - (min as f64) < 0.25 * len64 {
-        rep.violation(
-            "angle.wrap_returns_excluded_upper_end",
-            format!("rads({x}).wrap({min}, {max}) = {w}, the excluded upper end, although the exact wrapped value is {exact} (no rounding involved)"),
-            cj(),
-        );
-        return;
+    if w == max {
+        let (d32, l32) = ((x - min) as f64, (max - min) as f64);
+        let rho32 = d32.rem_euclid(l32);
+        let rho = (x as f64 - min as f64).rem_euclid(len64);
+        let tau = 2.0 * EPS * (l32 + (max as f64).abs());
+        let by_rounding = l32 - rho32 <= tau || len64 - rho <= tau;
+        rep.count(if by_rounding { "wraps_returning_the_upper_end_by_rounding" } else { "wraps_returning_the_upper_end_without_rounding" });
+        if !by_rounding {
+            rep.violation(
+                "angle.wrap_returns_excluded_upper_end",
+                format!("rads({x}).wrap({min}, {max}) = {w}, the excluded upper end, although the wrapped value is {exact} in exact arithmetic and min + {rho32} on the rounded intermediates (no rounding leads to max)"),
+                cj(),
+            );
+            return;
+        }
     }
     if x == max || x == min {
         rep.count("wraps_of_an_interval_end");
@@ -194,6 +221,12 @@ fn gen_vec(rng: &mut Rng, n: usize) -> [f32; 3] {
             for c in v.iter_mut().take(n) {
                 *c = rng.f32_in(-1.0, 1.0) * mag;
             }
+        }
+    }
+    // zeros of either sign (atan2 distinguishes them: az = ±180°)
+    for c in v.iter_mut().take(n) {
+        if *c == 0.0 && rng.bool() {
+            *c = -0.0;
         }
     }
     v
@@ -239,13 +272,21 @@ fn polar_case(rng: &mut Rng, rep: &mut Report) {
     }
     // the other composition: polar(r, az) -> cart -> polar
     let (r0, a0) = (rng.log_f32(1e-6, 1e6), angle_value(rng));
-    if let Ok((r1, a1)) = catch(|| {
+    let other = catch(|| {
         let p = polar(r0, rads(a0)).to_cart().to_polar();
         (p.r(), p.az().to_rads())
-    }) {
+    });
+    if let Err(m) = &other {
+        rep.violation("angle.polar_panicked", format!("polar(r={r0}, az={a0}).to_cart().to_polar() panicked: {m}"), Json::obj().set("r", f32s(r0)).set("az", f32s(a0)));
+    }
+    if let Ok((r1, a1)) = other {
+        rep.count("polar_compositions_from_polar");
         let d = (a1 as f64 - a0 as f64).rem_euclid(TAU);
         let d = d.min(TAU - d);
-        let tol = 1e-5 + 4.0 * EPS * (a0 as f64).abs();
+        // a0 is an exact f32; what is allowed is the rounding of sin/cos of it
+        // and of atan2 back: a few ulps of a result in [−π, π], plus the
+        // argument reduction's own ulp of a0
+        let tol = 4e-6 + 1.0 * EPS * (a0 as f64).abs();
         if !((r1 as f64 - r0 as f64).abs() <= 3e-6 * r0 as f64) || !(d <= tol) {
             rep.violation("angle.polar_not_inverse", format!("polar(r={r0}, az={a0} rad) -> cart -> polar(r={r1}, az={a1}): azimuth differs by {d:.3e} rad modulo a turn (tol {tol:.1e})"), Json::obj().set("r", f32s(r0)).set("az", f32s(a0)));
         }
@@ -288,22 +329,44 @@ fn spherical_case(rng: &mut Rng, rep: &mut Report) {
     // geometry of the convention: altitude is the elevation above the xz plane, azimuth is measured from +x towards +z
     let e_alt = (alt as f64 - (v[1] as f64 / len).clamp(-1.0, 1.0).asin()).abs();
     let rho = ((v[0] as f64).powi(2) + (v[2] as f64).powi(2)).sqrt();
-    let e_az = if rho > 1e-3 * len {
+    // atan2(z, x) is well conditioned in x and z themselves, whatever y is
+    let e_az = if rho > 0.0 {
         let d = (az as f64 - (v[2] as f64).atan2(v[0] as f64)).abs();
         d.min(TAU - d)
     } else {
         0.0
     };
-    if !(e_alt <= 1e-5 + 1e-3 * 0.0) && rho > 1e-3 * len || !(e_az <= 1e-5) {
+    // asin is ill-conditioned at ±1: near the poles the altitude is judged
+    // through its cosine as well (cos alt = rho/len)
+    let alt_ok = e_alt <= 1e-5 || ((alt as f64).cos() - rho / len).abs() <= 2e-6 && (alt as f64).signum() == (v[1] as f64).signum();
+    if !alt_ok || !(e_az <= 1e-5) {
         rep.violation("angle.spherical_angles_wrong", format!("{:?}: az={az} alt={alt}; expected az={} alt={}", v, (v[2] as f64).atan2(v[0] as f64), (v[1] as f64 / len).asin()), cj());
         return;
     }
     // the other composition
-    let (r0, a0, l0) = (rng.log_f32(1e-6, 1e6), rng.f32_in(-3.1, 3.1), rng.f32_in(-1.5, 1.5));
-    if let Ok((r1, a1, l1)) = catch(|| {
+    let hp = std::f32::consts::FRAC_PI_2;
+    let (r0, a0, l0) = (
+        rng.log_f32(1e-6, 1e6),
+        match rng.below(4) {
+            0 => rng.pick(&[0.0f32, hp, -hp, 3.0, -3.0, 1.0, -1.0]),
+            _ => rng.f32_in(-3.1, 3.1),
+        },
+        match rng.below(4) {
+            // up to a hundredth of a degree from the poles, and exact values
+            0 => rng.sign() * (hp - rng.log_f32(2e-4, 0.1)),
+            1 => rng.pick(&[0.0f32, 0.5, -0.5, 1.0, -1.0]),
+            _ => rng.f32_in(-1.5, 1.5),
+        },
+    );
+    let other = catch(|| {
         let s = spherical(r0, rads(a0), rads(l0)).to_cart().to_spherical();
         (s.r(), s.az().to_rads(), s.alt().to_rads())
-    }) {
+    });
+    if let Err(m) = &other {
+        rep.violation("angle.spherical_panicked", format!("spherical(r={r0}, az={a0}, alt={l0}).to_cart().to_spherical() panicked: {m}"), Json::obj().set("r", f32s(r0)).set("az", f32s(a0)).set("alt", f32s(l0)));
+    }
+    if let Ok((r1, a1, l1)) = other {
+        rep.count("spherical_compositions_from_spherical");
         let d = (a1 as f64 - a0 as f64).abs();
         let d = d.min(TAU - d);
         // azimuth is ill-conditioned near the poles
@@ -332,6 +395,8 @@ pub fn run(cfg: &Cfg, rep: &mut Report) {
     rep.floor("wraps", 1_000_000);
     rep.floor("wraps_of_an_interval_end", 100_000);
     rep.floor("wraps_over_at_least_one_revolution", 200_000);
+    rep.floor("polar_compositions_from_polar", 100_000);
+    rep.floor("spherical_compositions_from_spherical", 100_000);
     rep.floor("polar_roundtrips", 500_000);
     rep.floor("spherical_roundtrips", 500_000);
     let _: Option<(Vec2, Vec3, Angle)> = None;
